@@ -15,10 +15,24 @@ import (
 	"golang.org/x/tools/go/ssa/ssautil"
 )
 
-const (
-	repoDir  = "/repo"
-	verifDir = "/verif"
-)
+const verifDir = "/verif"
+
+// repoDir is /repo; GOSYM_REPO redirects a run to a scratch worktree (used only by tools/seedtest.sh
+// to try a seeded change without touching /repo; evidence then goes to GOSYM_EVIDENCE, never to
+// /verif/evidence)
+var repoDir = "/repo"
+
+var evidenceDir = filepath.Join(verifDir, "evidence")
+
+func init() {
+	if v := os.Getenv("GOSYM_REPO"); v != "" {
+		repoDir = v
+		evidenceDir = os.Getenv("GOSYM_EVIDENCE")
+		if evidenceDir == "" {
+			evidenceDir = filepath.Join(os.TempDir(), "gosym-evidence")
+		}
+	}
+}
 
 // ---- harness index ----
 
